@@ -35,7 +35,6 @@ PINS = {"Properties.C14": {
     # `fresh` must keep covering all five call kinds of the CURRENT protocol
     "C14_pairs_cover_all_calls": "forall id ok rest items ids, fresh (TI (istart id ok)) /\\ fresh (TBI (istart id ok) rest) /\\ fresh (TL (lstart items)) /\\ fresh (TD (dstart id)) /\\ fresh (TB (bstart ids))",
 }}
-KNOWN_ID = "C14-delete-outside-quota-mutex"
 
 
 def _run_driver(out, n, reps, seed, threads=6, race_threads=3, replay=None):
